@@ -174,6 +174,8 @@ pub enum Edge {
     /// forget-family (C07): the inner removal/range edge with a forget stage, then a follow-up
     ForgetHandle { op: u8, idx: u8, follow: u8 },
     ForgetRange { splice: bool, a: u8, b: u8, pat: Pat, stage: u8, rn: u8, follow: u8 },
+    /// the typed view's drain / splice iterator forgotten after `pat` (yielded values are owned `T`s and dropped)
+    ForgetRangeTyped { splice: bool, a: u8, b: u8, pat: Pat, rn: u8, follow: u8 },
     /// wrong-type family (C04)
     WrongPush(Src, u8), WrongInsert(u8, Src, u8), WrongSpliceItem { a: u8, b: u8, rn: u8, bad_at: u8, ty: u8 }, WrongSwap(u8, u8), WrongDowncast(u8, u8),
     TypeReports(u8),
@@ -196,7 +198,7 @@ impl Edge {
             Edge::Drain { .. } => "drain", Edge::Splice { .. } => "splice", Edge::DrainOverflow(..) => "drain-overflow",
             Edge::SpliceOverflow(..) => "splice-overflow", Edge::IterProto { .. } => "iter-proto", Edge::History { .. } => "history", Edge::Three { .. } => "three-vectors", Edge::DrainAdapt { .. } => "drain-adaptor", Edge::SpliceAdapt { .. } => "splice-adaptor", Edge::IterAdapt { .. } => "iter-adaptor", Edge::Cap(..) => "capacity",
             Edge::CloneVec { .. } => "clone", Edge::CloneEmpty { .. } => "clone_empty", Edge::CloneEmptyIn { .. } => "clone_empty_in",
-            Edge::ForgetHandle { .. } => "forget-handle", Edge::ForgetRange { .. } => "forget-range",
+            Edge::ForgetHandle { .. } => "forget-handle", Edge::ForgetRange { .. } => "forget-range", Edge::ForgetRangeTyped { .. } => "forget-range-typed",
             Edge::WrongPush(..) => "wrong-push", Edge::WrongInsert(..) => "wrong-insert", Edge::WrongSpliceItem { .. } => "wrong-splice",
             Edge::WrongSwap(..) => "wrong-swap", Edge::WrongDowncast(..) => "wrong-downcast", Edge::TypeReports(..) => "type-reports",
             Edge::WriteRead { .. } => "write-read", Edge::Swap { .. } => "swap", Edge::Lazy { .. } => "lazy",
